@@ -112,6 +112,13 @@ def genstep(rng, axes):
 
 
 def genpath(rng):
+    if rng.random() < 0.04:
+        # several context nodes reach the document node through an ancestor axis, child/self steps follow: every selected
+        # node once (seeded C06-8: de-duplication dropped where "it cannot happen")
+        first = rng.choice(["//a", "//b", "//*", "descendant::a", "a/b", ".//c", "//text()", "*"])
+        mid = rng.choice(["ancestor::node()", "ancestor-or-self::node()"])
+        rest = "/".join(rng.choice(["*", "r", "a", "self::*", "child::*", "b", "*[1]"]) for _ in range(rng.choice([1, 1, 2])))
+        return first + "/" + mid + "/" + rest
     n = rng.choice([1, 1, 1, 2, 2, 3])
     lead = rng.choice(["", "", "", "/", "//", "//", ".//"])
     steps = [genstep(rng, AXES) for _ in range(n)]
